@@ -161,6 +161,10 @@ def handle5 (op : String) (a obs : List String) : Option Verdict :=
       else if preset == "addr6_allow" then (Config.sockopt .allow).map fun v => (.v6, .loopback, v)
       else none
     let (fam, addr, v6only) ← plan
+    -- a host without IPv6 (probed independently by the harness) cannot bind a v6 preset: not a
+    -- statement about the library
+    if fam == .v6 && (field obs "family").startsWith "error:" && field obs "host_v6" == "false" then
+      return (obs, check [("no_trap", !isTrap obs)])
     let ip := match fam, addr with
       | .v4, .loopback => "127.0.0.1" | .v4, .unspecified => "0.0.0.0"
       | .v6, .loopback => "::1" | .v6, .unspecified => "::"
